@@ -83,6 +83,10 @@ func (r *Runtime) Load(ctx context.Context, filter any) error {
 	r.loadMu.Lock()
 	defer r.loadMu.Unlock()
 
+	return r.load(ctx, filter)
+}
+
+func (r *Runtime) load(ctx context.Context, filter any) error {
 	if filter == nil {
 		filter = map[string]any{meta.KeyNamespace: r.namespace}
 	} else {
@@ -261,37 +265,49 @@ func (r *Runtime) Reconcile(ctx context.Context) error {
 				return err
 			}
 
-			cursor, err := r.valueStore.Find(ctx, map[string]any{value.KeyID: event.ID})
-			if err != nil {
+			if err := r.rebind(ctx, event.ID); err != nil {
 				return err
-			}
-
-			var values []*value.Value
-			if err := cursor.All(ctx, &values); err != nil {
-				return err
-			}
-			values = append(values, &value.Value{ID: event.ID})
-
-			var filters []any
-			for _, id := range r.symbolTable.Keys() {
-				if sb := r.symbolTable.Lookup(id); sb != nil {
-					unstructured := &spec.Unstructured{}
-					if err := spec.As(sb.Spec, unstructured); err != nil {
-						return err
-					} else if unstructured.IsBound(values...) {
-						filters = append(filters, map[string]any{spec.KeyID: id})
-					}
-				}
-			}
-
-			if len(filters) > 0 {
-				_ = r.Load(ctx, map[string]any{"$or": filters})
 			}
 		}
 		return nil
 	})
 
 	return g.Wait()
+}
+
+// rebind reloads the symbols bound to the value with the given ID; it looks at the table and
+// reloads under the same lock as Load, so a Load in flight cannot slip a symbol in between.
+func (r *Runtime) rebind(ctx context.Context, id uuid.UUID) error {
+	r.loadMu.Lock()
+	defer r.loadMu.Unlock()
+
+	cursor, err := r.valueStore.Find(ctx, map[string]any{value.KeyID: id})
+	if err != nil {
+		return err
+	}
+
+	var values []*value.Value
+	if err := cursor.All(ctx, &values); err != nil {
+		return err
+	}
+	values = append(values, &value.Value{ID: id})
+
+	var filters []any
+	for _, id := range r.symbolTable.Keys() {
+		if sb := r.symbolTable.Lookup(id); sb != nil {
+			unstructured := &spec.Unstructured{}
+			if err := spec.As(sb.Spec, unstructured); err != nil {
+				return err
+			} else if unstructured.IsBound(values...) {
+				filters = append(filters, map[string]any{spec.KeyID: id})
+			}
+		}
+	}
+
+	if len(filters) > 0 {
+		_ = r.load(ctx, map[string]any{"$or": filters})
+	}
+	return nil
 }
 
 // Close shuts down the Runtime by closing streams and clearing the symbol table.
